@@ -27,10 +27,19 @@ type listCfg struct {
 	Neg  bool   `json:"neg"`
 	Fwd  bool   `json:"fwd"`
 	MaxL int    `json:"maxlen"`
+	Mtx  bool   `json:"mutex,omitempty"`
+	Pol  bool   `json:"push_policy,omitempty"`
 }
 
 func (c listCfg) String() string {
-	return fmt.Sprintf("%s fifo=%v cap=%d neg=%v fwd=%v maxlen=%d", c.Kind, c.FIFO, c.Cap, c.Neg, c.Fwd, c.MaxL)
+	s := fmt.Sprintf("%s fifo=%v cap=%d neg=%v fwd=%v maxlen=%d", c.Kind, c.FIFO, c.Cap, c.Neg, c.Fwd, c.MaxL)
+	if c.Mtx {
+		s += " mutex"
+	}
+	if c.Pol {
+		s += " push-policy"
+	}
+	return s
 }
 
 func (c listCfg) build() *listInst {
@@ -50,6 +59,12 @@ func (c listCfg) build() *listInst {
 	}
 	if c.Fwd {
 		s.SetForwardIndices(true)
+	}
+	if c.Mtx {
+		s.SetMutex()
+	}
+	if c.Pol {
+		s.SetPushPolicy(func(...any) error { return nil })
 	}
 	return &listInst{s: s, m: m}
 }
@@ -266,7 +281,14 @@ func c01Configs(c *Ctx) []listCfg {
 						if cp > 0 {
 							ml = cp + 1 // growth is attempted on a full stack too: the model drops the surplus
 						}
-						out = append(out, listCfg{k, fifo, cp, neg, fwd, ml})
+						out = append(out, listCfg{k, fifo, cp, neg, fwd, ml, false, false})
+						if !neg && !fwd {
+							// the same histories through the locking paths and the push-policy path
+							out = append(out, listCfg{k, fifo, cp, neg, fwd, ml, true, false}, listCfg{k, fifo, cp, neg, fwd, ml, true, true})
+							if !c.Quick() {
+								out = append(out, listCfg{k, fifo, cp, neg, fwd, ml, false, true})
+							}
+						}
 					}
 				}
 			}
@@ -291,6 +313,7 @@ func init() {
 }
 
 func runC01(c *Ctx) {
+	installLockModel() // mutex-enabled configurations: re-acquiring a held mutex is reported, not hung on
 	cfgs := c01Configs(c)
 	c.Rule = "BFS to fix-point over every reachable (bounded-length) stack state x every operation of the alphabet; a state is the raw implementation dump with fresh tokens renamed canonically; non-trivial = distinct (configuration, state, operation) triples whose operation changed the reference list or the FIFO flag"
 	c.Exhaustive = true
